@@ -88,6 +88,7 @@ pub fn run(kind: &str, args: &[String]) -> i32 {
         "threads" => threads(&mut sink, &opts),
         "frameiter" => frameiter(&mut sink, &opts),
         "soup" => soup(&mut sink, &opts),
+        "blocks" => blocks(&mut sink, &opts),
         "threadstext" => threads_text(&mut sink, &opts),
         "recorditer" => recorditer(&mut sink, &opts),
         _ => {
@@ -310,10 +311,12 @@ fn meta(sink: &mut Sink, o: &Opts) {
 
 /// answers of the three handles for one query, panics recorded as data
 pub fn three_answers(src: &[u8], qs: &[Value]) -> Vec<Value> {
-    use crate::handles::{parse_query, with_handle, HANDLES};
+    use crate::handles::{parse_query, with_handle, EXTRA_HANDLES, HANDLES};
     let parsed: Vec<_> = qs.iter().map(parse_query).collect();
     let mut per_handle: Vec<Vec<Value>> = vec![];
-    for h in HANDLES {
+    let utf8 = std::str::from_utf8(src).is_ok();
+    let names: Vec<&str> = HANDLES.iter().chain(EXTRA_HANDLES.iter()).cloned().filter(|h| utf8 || !h.contains("_from")).collect();
+    for h in &names {
         let src2 = src.to_vec();
         let pr = &parsed;
         let res = guarded(std::panic::AssertUnwindSafe(move || {
@@ -333,7 +336,13 @@ pub fn three_answers(src: &[u8], qs: &[Value]) -> Vec<Value> {
         });
     }
     (0..qs.len())
-        .map(|k| json!({"mapper": per_handle[0][k], "mapperp": per_handle[1][k], "cache": per_handle[2][k]}))
+        .map(|k| {
+            let mut m = serde_json::Map::new();
+            for (i, h) in names.iter().enumerate() {
+                m.insert(h.to_string(), per_handle[i][k].clone());
+            }
+            Value::Object(m)
+        })
         .collect()
 }
 
@@ -353,7 +362,11 @@ pub fn detail_of(v: &Value) -> String {
 }
 
 pub fn statuses(a: &Value) -> Value {
-    json!({"mapper": status_of(&a["mapper"]), "mapperp": status_of(&a["mapperp"]), "cache": status_of(&a["cache"])})
+    // worst status over all handles, reported under the three principal names
+    let worst = |prefix: &str| {
+        a.as_object().unwrap().iter().filter(|(k, _)| k.starts_with(prefix)).map(|(_, v)| status_of(v)).find(|s| *s != "ok").unwrap_or("ok")
+    };
+    json!({"mapper": worst("mapper"), "mapperp": worst("mapperp"), "cache": worst("cache")})
 }
 
 /// C01..C04/C02: sessions of (mapping, queries over its universe) answered by the three handles
@@ -437,7 +450,7 @@ fn retrace(sink: &mut Sink, o: &Opts) {
         let answers = three_answers(src, &qs);
         for (q, a) in qs.into_iter().zip(answers) {
             let st = statuses(&a);
-            let detail = json!({"mapper": detail_of(&a["mapper"]), "mapperp": detail_of(&a["mapperp"]), "cache": detail_of(&a["cache"])});
+            let detail: Vec<String> = a.as_object().unwrap().iter().map(|(k, v)| (k, detail_of(v))).filter(|(_, d)| !d.is_empty()).map(|(k, d)| format!("{k}: {d}")).collect();
             sink.emit(json!({"t": "q", "sid": sid + 1, "q": q, "got": a, "status": st, "detail": detail}));
         }
     }
@@ -649,6 +662,18 @@ fn cache(sink: &mut Sink, o: &Opts) {
                     if let Ok(b) = crate::handles::write_cache(src) {
                         copies.push(b);
                     }
+                }
+                // history: writes (and reads) of OTHER mappings in between
+                let other = &srcs[(k + 1) % srcs.len()];
+                if let Ok(ob) = crate::handles::write_cache(other) {
+                    let buf = crate::handles::Aligned::new(&ob);
+                    if let Ok(c) = proguard::ProguardCache::parse(buf.bytes()) {
+                        let _ = c.remap_class("a");
+                    }
+                }
+                let _ = proguard::ProguardMapper::new(proguard::ProguardMapping::new(other));
+                if let Ok(b) = crate::handles::write_cache(src) {
+                    copies.push(b);
                 }
                 // history: a write that fails at sink call i (and one whose sink panics) must not influence
                 // the writes that follow it in the same process
@@ -1374,6 +1399,79 @@ fn threads_text(sink: &mut Sink, o: &Opts) {
         });
         for ev in results.into_inner().unwrap() {
             sink.emit(ev);
+        }
+    }
+}
+
+/// C01..C04 on whole corpus files, one event per sampled class block
+fn blocks(sink: &mut Sink, o: &Opts) {
+    use crate::handles::{parse_query, with_handle, HANDLES};
+    let mut rng = Rng::new(o.seed);
+    for f in &o.files {
+        let src = std::fs::read(f).expect("corpus file");
+        let base = src.as_ptr() as usize;
+        // class lines as the real iterator reports them: (offset of the line, obfuscated name)
+        let mut starts: Vec<(usize, String)> = vec![];
+        for r in ProguardMapping::new(&src).iter().flatten() {
+            if let ProguardRecord::Class { original, obfuscated } = r {
+                starts.push((original.as_ptr() as usize - base, obfuscated.to_string()));
+            }
+        }
+        let mut count = std::collections::HashMap::new();
+        for (_, n) in &starts {
+            *count.entry(n.clone()).or_insert(0usize) += 1;
+        }
+        let mut picks: Vec<usize> = (0..starts.len()).filter(|i| count[&starts[*i].1] == 1).collect();
+        // seeded sample of o.n blocks (all when n is large)
+        for i in (1..picks.len()).rev() {
+            picks.swap(i, rng.below(i + 1));
+        }
+        picks.truncate(o.n);
+        picks.sort();
+        let mut work: Vec<(Vec<u8>, Vec<Value>)> = vec![];
+        for i in picks {
+            let a = starts[i].0;
+            let b = if i + 1 < starts.len() { starts[i + 1].0 } else { src.len() };
+            let block = src[a..b].to_vec();
+            if block.len() > 6000 {
+                continue;
+            }
+            let uni = gen::universe(&block);
+            let class = starts[i].1.clone();
+            let mut qs: Vec<Value> = vec![json!({"t": "class", "name": enc::s(&class)})];
+            let mut methods: Vec<String> = uni.methods.clone();
+            methods.truncate(10);
+            for m in &methods {
+                qs.push(json!({"t": "method", "class": enc::s(&class), "method": enc::s(m)}));
+                for line in [0u128, gen::query_line(&mut rng, &uni), gen::query_line(&mut rng, &uni)] {
+                    qs.push(json!({"t": "frame", "frame": {"class": enc::s(&class), "method": enc::s(m), "line": enc::dec(line), "file": [], "params": []}}));
+                }
+                if let Some(a) = uni.args.first() {
+                    qs.push(json!({"t": "frame", "frame": {"class": enc::s(&class), "method": enc::s(m), "line": [0], "file": [], "params": [enc::s(a)]}}));
+                }
+            }
+            work.push((block, qs));
+        }
+        // answers: handles are built ONCE from the whole file
+        let all_qs: Vec<Value> = work.iter().flat_map(|(_, qs)| qs.iter().cloned()).collect();
+        let parsed: Vec<_> = all_qs.iter().map(parse_query).collect();
+        let mut per_handle: Vec<Vec<Value>> = vec![];
+        for h in HANDLES {
+            let pr = &parsed;
+            let res = with_handle(h, &src, |handle| pr.iter().map(|q| {
+                let hr = std::panic::AssertUnwindSafe(handle);
+                guarded(move || hr.answer(q)).unwrap_or_else(|p| json!({"panic": p}))
+            }).collect::<Vec<_>>());
+            per_handle.push(res.unwrap_or_else(|e| all_qs.iter().map(|_| json!({"error": e})).collect()));
+        }
+        let mut k = 0;
+        for (block, qs) in work {
+            let mut out = vec![];
+            for q in qs {
+                out.push(json!({"q": q, "got": {"mapper": per_handle[0][k], "mapperp": per_handle[1][k], "cache": per_handle[2][k]}}));
+                k += 1;
+            }
+            sink.emit(json!({"t": "block", "file": f, "block": enc::bytes(&block), "qs": out}));
         }
     }
 }
